@@ -28,6 +28,29 @@ def races_in(out):
     return blocks
 
 
+CRASH_MARKS = ("fatal error:", "panic:", "SIGSEGV", "SIGBUS", "unexpected fault address", "signal arrived")
+
+
+def confirm_crash(ctx, rc, out, cmd, timeout, env, what):
+    """A stress process that dies (a fault inside generated code cannot be recovered in-process) is an observation of the
+    library under concurrent use: it is confirmed by running the same command again; twice dead = violation (with the stack),
+    once = a note.  Anything else that fails (time-out, usage) stays inconclusive."""
+    if rc == 0:
+        return rc, out
+    if not any(m in out for m in CRASH_MARKS):
+        raise vf.Inconclusive("%s failed:\n%s" % (what, out[-2000:]))
+    rc2, out2, _ = vf.run(cmd, timeout, env=env)
+    if rc2 != 0 and any(m in out2 for m in CRASH_MARKS):
+        i = min([out2.find(m) for m in CRASH_MARKS if m in out2])
+        vf.violation(ctx, "%s: the process died under concurrent use, twice: %s" % (what, out2[i:i + 160].replace("\n", " ")),
+                     {"kind": "crash", "what": what, "first": out[-3000:], "second": out2[max(0, i - 200):i + 4000]})
+        return rc2, out2
+    if rc2 != 0:
+        raise vf.Inconclusive("%s failed:\n%s" % (what, out2[-2000:]))
+    ctx.notes.append("unconfirmed crash of %s (died once, ran clean when repeated): %s" % (what, out[-300:]))
+    return rc2, out2
+
+
 def check(ctx):
     exe = vf.build_harness(ctx)
     exe_race = vf.build_harness(ctx, race=True)
@@ -47,15 +70,18 @@ def check(ctx):
     s1 = os.path.join(ctx.work, "pc1.json")
     rc, out, _ = vf.run([exe, "pcache", "-dump", g["dump"], "-out", s1, "-seed", str(ctx.seed), "-stride", str(ctx.pick(3, 1)),
                          "-api", str(ctx.pick(40, 200)), "-encscale", str(ctx.pick(6, 30))], 1800)
-    if rc != 0:
-        raise vf.Inconclusive("pcache replay failed:\n" + out[-2000:])
-    sums.append(json.load(open(s1)))
+    rc, out = confirm_crash(ctx, rc, out, [exe, "pcache", "-dump", g["dump"], "-out", s1, "-seed", str(ctx.seed), "-stride", str(ctx.pick(3, 1)),
+                                           "-api", str(ctx.pick(40, 200)), "-encscale", str(ctx.pick(6, 30))], 1800, None, "pcache replay")
+    if rc == 0:
+        sums.append(json.load(open(s1)))
     s2 = os.path.join(ctx.work, "pc2.json")
     rc, out, _ = vf.run([exe_race, "pcache", "-dump", g["dump"], "-out", s2, "-seed", str(ctx.seed), "-stride", str(ctx.pick(97, 11)),
                          "-stress", str(ctx.pick(2600, 12000)), "-api", str(ctx.pick(300, 2000))], 9000, env={"GORACE": "halt_on_error=0 exitcode=0"})
-    if rc != 0:
-        raise vf.Inconclusive("pcache -race run failed:\n" + out[-2000:])
-    sums.append(json.load(open(s2)))
+    rc, out = confirm_crash(ctx, rc, out, [exe_race, "pcache", "-dump", g["dump"], "-out", s2, "-seed", str(ctx.seed), "-stride", str(ctx.pick(97, 11)),
+                                           "-stress", str(ctx.pick(2600, 12000)), "-api", str(ctx.pick(300, 2000))], 9000,
+                            {"GORACE": "halt_on_error=0 exitcode=0"}, "pcache -race run")
+    if rc == 0:
+        sums.append(json.load(open(s2)))
     races = races_in(out)
     os.remove(g["dump"])
     for s in sums:
